@@ -36,6 +36,7 @@ BASES = {
     'sel-where-order-top': (Q(items=[fa(2), fa(1)], where=('a1 != 3', lambda e: e.a(1) != 3), order=[('a2', A2I)], top=2), ['ii', 'ii', 'ii'], None),
     'sel-where-order-desc-limit': (Q(items=[fa(1), fa(2)], where=('a1 != 3', lambda e: e.a(1) != 3), order=[('a2', A2I)], desc=True, order_suffix='DESC', top=2, top_kw='LIMIT'), ['ii', 'ii', 'ii'], None),
     'join-order-desc': (Q(items=[fa(2), fb(2), NR], join=join('LEFT JOIN'), order=[('a2', A2I)], desc=True, order_suffix='DESC'), ['ki', 'ki'], ['ki']),
+    'sel-top0': (Q(items=[fa(1), NR], top=0, where=('a2 >= 0', lambda e: e.a(2) >= 0)), ['ii', 'ii'], None),
     'sel-order-desc': (Q(items=[fa(1), NR], order=[('a1', lambda e: e.a(1))], desc=True, order_suffix='DESC'), ['ii', 'ii', 'ii'], None),
     'sel-distinct-limit': (Q(items=[fa(1)], distinct='distinct', top=1, top_kw='LIMIT'), ['ii', 'ii', 'ii'], None),
     'sel-distinct-count': (Q(items=[fa(2)], distinct='count', where=('a1 >= 0', lambda e: e.a(1) >= 0)), ['ii', 'ii'], None),
